@@ -219,6 +219,7 @@ def run(prop, tier, seed, replay=None):
         "samples": samples, "traces_validated_against_impl": nlines + mgr_lines + heap_lines,
         "tie_a_obligations": gen_total, "tie_a_discharged": gen_ok, "tie_a_notes": tie_notes,
         "correspondence_divergences": len(diffs) + len(mgr_diffs) + len(heap_diffs),
+        "printer_correspondence": dict(suite_print.STATS) if prop in ("C06", "C11") and ok else None,
         "oracle_failures": len(failures) + len(mgr_failures) + len(heap_failures),
         "input_distribution": dict(sorted(stats_total.items())), "builds": [b[0] for b in builds], "lean_problems": lean_problems})
     v.assumptions = ["meaning of each primitive Python operator = Python itself (parameter of the theorems)",
